@@ -121,7 +121,7 @@ func checkC01(t *target, tp *template, devs []deviation, r *evid.Run) (sig, deta
 					break
 				}
 				// mask-driven positions are named Owner.Field: a difference elsewhere in the owner
-				if i := strings.LastIndex(n, "."); i >= 0 && strings.HasPrefix(tp.Pos[d.Pos].Kind, "mask:") && strings.HasPrefix(w, n[:i+1]) {
+				if i := strings.LastIndex(n, "."); strings.HasPrefix(tp.Pos[d.Pos].Kind, "mask:") && (i < 0 || strings.HasPrefix(w, n[:i+1])) {
 					rel = "@<" + tp.Pos[d.Pos].Kind + ">." + w[i+1:]
 					break
 				}
@@ -303,6 +303,16 @@ func runC01(r *evid.Run) {
 				desc := tp.describe(devs)
 				evid.Publish("C01 " + t.Kind + " " + desc)
 				sig, detail := checkC01(t, tp, devs, w)
+				if sig != "" && len(devs) > 1 {
+					// a pair fails: if one of its deviations fails on its own, the pair is another case
+					// of that cell; only a failure that needs both is a cell of its own
+					for _, d := range devs {
+						if s1, _ := checkC01(t, tp, []deviation{d}, w); s1 != "" {
+							sig = s1
+							break
+						}
+					}
+				}
 				key := ""
 				if len(devs) > 0 {
 					key = t.Kind + "/" + desc
